@@ -2,7 +2,7 @@
 import numpy as np
 from hypothesis import strategies as st
 from vf import gens, oracles
-from vf.runner import hyp_run, run_cases, guard, fail, exc_failure
+from vf.runner import hyp_run, run_cases, guard, fail, exc_failure, snapshot, written
 
 THOROUGH_SCALE = 8      # multiplies every generated-case budget of the thorough tier
 RULE = ("UBI = inv(U.B(cell)) for 7 cell families, right- and left-handed, optionally perturbed by 0.2% (poorly "
@@ -151,6 +151,7 @@ def check(case, rec=None):
     ubi, gv, labels = build(case)
     n = len(gv)
     tol = case["tol"]
+    snap = snapshot(gv=gv, labels=labels)
     dyadic = case["degenerate"] == "dyadic"
     if dyadic:
         tol = case["tol"] = [0.5, 0.25, 0.125, 0.5][case["seed"] % 4]
@@ -321,6 +322,10 @@ def check(case, rec=None):
                                                                        e1[s1].mean(), where), fn="refinegrains.refine/sym"))
                             if rec is not None:
                                 rec.note("refine_with_lattice_constraint_cases", 1, "sum")
+    # ---- the peak list and the labels are inputs: nothing may have written into them
+    for nm in written(snap, gv=gv, labels=labels):
+        fails.append(fail("inputs", "one of the scoring / refinement routes modified the %s array it was given; %s" %
+                          (nm, where), what="inputs"))
     # ---- refine_assigned for every label (selection by label only)
     for lab in range(0, case["nlabel"] + 2):
         sel = labels == lab
